@@ -205,8 +205,8 @@ def oracle_project(case: Dict[str, Any], obs: Dict[str, Any]) -> Optional[Tuple[
         return ('building/writing the project raised ' + obs['build_exc'], [])
     vis = {}
     for n, u in obs['visible']:
-        if n in vis:
-            return ('two visible objects share the qualified name %r' % n, [n])
+        if n in vis and vis[n] != u:
+            return ('two visible objects share the qualified name %r but not the location (%r, %r)' % (n, vis[n], u), [n])
         vis[n] = u
     bad: List[str] = []
     msgs: List[str] = []
@@ -712,6 +712,7 @@ class Check(PropertyCheck):
                 return (1 if d[2] else 0) + sum(count_hidden(k) for k in d[3])
             nh = sum(count_hidden(d) for d in r['dump'])
             self.count('project_objects', nvis)
+            self.count('project_registry_agrees_%s' % r['registry_agrees'])
             self.count('project_hidden_objects', nh)
             if nh or any(' ' in n for n, _ in r['visible']):
                 self.nontrivial.add('P' + json.dumps(c, sort_keys=True))
